@@ -2,6 +2,14 @@
 FIELD_TB = ["section hypothesis field_theory (theorems hold for every field; the executable instance is Z mod p, Base/Zp.v)"]
 
 PROPS = {
+    "C05": {
+        "cmd": "c05",
+        "timeout": 1200,
+        "trusted_base": FIELD_TB + ["F_47 instance: field_theory proved (Base/F47.v), enumerator complete and sound (CS/Enum.v)",
+                                    "the documented meaning of each API call is transcribed by hand in Frontend/Spec.v (Coq) and harness/prog.go (Go); both are compared on every tuple",
+                                    "raw hints (NewHint) are opaque: their outputs are unconstrained by definition and are excluded"],
+        "assumptions": ["exhaustive over F_47 only for programs with at most 2 inputs; larger programs and larger fields are sampled"],
+    },
     "C06": {
         "cmd": "c06",
         "timeout": 900,
